@@ -3,6 +3,13 @@ package main
 // Per-property driver configuration. rule/assumptions go verbatim into the
 // evidence file; the counts next to them are measured by the test processes.
 var props = map[string]propCfg{
+	"C04": {
+		rule: "operation histories (<=40 ops over 1-3 subjects drawn from 32 object kinds, keys from index/canonical-numeric/string/symbol pools, descriptors over all 64 field-presence patterns, explicit receivers) executed in lock-step on goja and on esmodel (ECMA-262 10.1/10.4.2-4 written from the spec, seeded from the runtime's own initial property tables); after every step the result, the accessor call log and the full state dump of every subject must be equal; a history is non-trivial when it redefines an existing property with a partial descriptor or uses a receiver different from the target; distinct = FNV-64 of the JSON history",
+		assumptions: []string{
+			"the initial property table of each subject is read from the runtime through Reflect.ownKeys/getOwnPropertyDescriptor and loaded into the model (only the behaviour under operations is predicted)",
+			"a history stops (counted under excluded) at the first step that would run code of an object the model does not track (native accessors such as Object.prototype.__proto__)",
+		},
+	},
 	"C01": {
 		crashIsViolation: true,
 		rule: "three layers of source text, each in strict/sloppy and global/function/eval/new Function placement: L1 grammar-generated programs over the whole syntax (plus deep-nesting forms up to depth 196), L2 token-level mutations of L1 programs (delete/duplicate/swap/replace/insert/truncate/splice), L3 byte strings biased to JS fragments and malformed UTF-8; every input goes through Parse, Compile and RunProgram/RunString under a 150 ms interrupt watchdog; a case is non-trivial when (L1) it compiled and reached the VM or (L2/L3) it parsed or is longer than 8 bytes; distinct = FNV-64 of placement+mode+source",
